@@ -244,6 +244,7 @@ def make_backend_class():
             self.workers = {}          # trial_id -> dict(status, metrics, config, created)
             self.copies = []
             self.copy_fault = None
+            self.status_after = []   # (call, trial, worker status) when pause_trial / stop_trial left another status behind
             self.n_polls = 0
             self.last_stdout_trial = None
             self.last_stdout_after_stop_all = False
@@ -375,6 +376,8 @@ def make_backend_class():
         def pause_trial(self, trial_id, result=None):
             self._call(("b_pause", trial_id))
             super().pause_trial(trial_id=trial_id, result=result)
+            if self.workers[trial_id]["status"] != "Paused":   # the backend-specific _pause_trial did not run
+                self.status_after.append(["pause_trial", trial_id, self.workers[trial_id]["status"]])
 
         def stop_trial(self, trial_id, result=None):
             self._call(("b_stop", trial_id))
@@ -741,7 +744,7 @@ def run_tuner(params, script, scheduler_factory=None, hard_limit=400):
         else:
             os.environ["SYNETUNE_FOLDER"] = old_folder
     return dict(trace=trace, outcome=outcome, smap=smap, counters=counters, aborted=aborted, copies=backend.copies,
-                copy_fault=backend.copy_fault,
+                copy_fault=backend.copy_fault, status_after=backend.status_after,
                 replaced_exception=replaced_exception, second_trace=second_trace, second_outcome=second_outcome,
                 **snapshot)
 
